@@ -285,3 +285,33 @@ def first_difference(a: List[ast.stmt], b: List[ast.stmt]) -> str:
         longer = a if len(a) > len(b) else b
         return f"statement {min(len(a), len(b)) + 1} only on one side: `{pretty(longer[min(len(a), len(b))])[:200]}`"
     return ""
+
+
+def alpha_canon(fn: ast.FunctionDef, strip: bool = True) -> str:
+    """Canonical text of a function body with parameters renamed p0,p1,… and locals v0,v1,… in order of first binding,
+    behaviour-free statements removed: equal for alpha-equivalent bodies."""
+    body = strip_stmts(fn.body) if strip else [clone(s) for s in fn.body]
+    mapping = {}
+    a = fn.args
+    for i, arg in enumerate(a.posonlyargs + a.args + a.kwonlyargs):
+        mapping[arg.arg] = f"p{i}"
+    k = [0]
+
+    def bind(name):
+        if name not in mapping:
+            mapping[name] = f"v{k[0]}"
+            k[0] += 1
+    mod = ast.Module(body=body, type_ignores=[])
+    # binding order: walk statements in order, targets first
+    for n in ast.walk(mod):
+        if isinstance(n, ast.Name) and isinstance(n.ctx, ast.Store):
+            bind(n.id)
+    for n in ast.walk(mod):
+        if isinstance(n, ast.Name) and n.id in mapping:
+            n.id = mapping[n.id]
+    return "\n".join(" ".join(ast.unparse(s).split()) for s in body)
+
+
+def alpha_canon_src(source: str) -> str:
+    fn = ast.parse(source).body[0]
+    return alpha_canon(fn)
